@@ -11,12 +11,13 @@ import contracts.tablereaders as TRc
 import contracts.builders as BU
 import contracts.modifiers as MDc
 import contracts.form_builder as FBc
+import contracts.species as SPc
 
 F_CP, F_MOD = CE.F_CP, CE.F_MOD
 FUNCTIONS = [(F_CP, '_TableFormSection._parse_data'), (F_CP, '_TableFormSection._parse_xy'), (F_MOD, '_Buck4_Spline_Factory.build_spline'), (F_MOD, '_Exp_Spline_Factory.build_spline'),
              (F_CP, '_TabulationCutoff._init_cutoff'), (FC.FILE, 'DLPOLY_PairTabulationFactory.extract_cutoffs'), (FC.FILE, 'LAMMPS_PairTabulationFactory.extract_cutoffs'),
-             (F_MOD, 'spline'), (F_MOD, 'trans'), (FBc.F_PFB, 'Potential_Form_Builder._make_multi_range_tuple'), (FBc.F_PFB, 'Potential_Form_Builder.create_potential_function'), (F_CP, 'ConfigParser._convert_species_type'), (BU.FILE, 'Pair_Potentials_From_Tuples_Builder._create_potential'), (BU.FILE, 'Pair_Potentials_From_Tuples_Builder._init_potentials')]
-SPECSEQS = [FBc.chain_ranges]
+             (F_MOD, 'spline'), (F_MOD, 'trans'), (FBc.F_PFB, 'Potential_Form_Builder._make_multi_range_tuple'), (FBc.F_PFB, 'Potential_Form_Builder.create_potential_function'), (F_CP, 'ConfigParser._convert_species_type'), (F_CP, 'ConfigParser.species'), (BU.FILE, 'Pair_Potentials_From_Tuples_Builder._create_potential'), (BU.FILE, 'Pair_Potentials_From_Tuples_Builder._init_potentials')]
+SPECSEQS = [FBc.chain_ranges, SPc.stripped]
 CONFIG_FILES = scan.package_files('atsim/potentials/config') + ['atsim/potentials/_modifiers.py', 'atsim/potentials/tools/potable/__init__.py', 'atsim/potentials/tools/potable/_actions.py']
 
 def lemmas():
